@@ -233,6 +233,9 @@ void CPCA(tensor *x, int scaling, size_t npc, CPCAMODEL *model)
     }
 
     while(1){ /* loop until convergence of t */
+      #ifdef LIBSCIENTIFIC_VERIF
+      if(verif_nipals_tick != NULL) verif_nipals_tick(3);
+      #endif
       for(k = 0; k < Eb->order; k++){
         NewDVector(&p_b, Eb->m[k]->col);
        /*
